@@ -93,6 +93,9 @@ def module_mutables(tree: ast.Module) -> Dict[str, ast.AST]:
             continue
         if isinstance(v, (ast.List, ast.Dict, ast.Set, ast.ListComp, ast.DictComp, ast.SetComp)):
             out[tg] = st
+        elif isinstance(v, ast.Call) and isinstance(v.func, ast.Attribute) and v.func.attr in ("pack", "encode", "to_bytes", "tobytes", "hex", "decode") and \
+                isinstance(st, ast.AnnAssign) and norm(st.annotation) in ("bytes", "str"):
+            pass        # `_PAYLOAD: bytes = Message(...).pack(options)`: what is kept is the immutable result, the objects that made it are gone
         elif isinstance(v, ast.Call) and norm(v.func) not in PURE_MODULE_CALLS and not immutable_ctor(v, tree):
             out[tg] = st
     return out
